@@ -11,6 +11,11 @@ class NS:
         self.__dict__.update(kw)
 
 
+class NullLogger:
+    def __getattr__(self, k):
+        return lambda *a, **kw: None
+
+
 class _Time:
     def __init__(self, k):
         self.k = k
@@ -128,17 +133,17 @@ def run_step(vc, targets=(1, 2), sensors=(10, 11), estimates=(1, 2), nonrealtime
 
     def handle_relevant(inst, db, scope, lb, ub, logger, scope_instance_id=None):
         log.append(("handleRelevantEvents", inst, db, scope, lb, ub, scope_instance_id))
-    vc.stub(SC + "@getRelevantEvents", get_relevant)
-    vc.stub(SC + "@handleRelevantEvents", handle_relevant)
-    vc.stub(SC + "@PropagateRegistration", lambda a: ("PropagateRegistration", a))
-    vc.stub(SC + "@EstPredictRegistration", lambda a: ("EstPredictRegistration", a))
-    vc.stub(SC + "@EstUpdateRegistration", lambda a, h, obs: ("EstUpdateRegistration", a, h, list(obs)))
-    vc.stub(SC + "@ray", NS(put=lambda x: ("handle", x)))
-    vc.stub(SC + "@BehavioralConfig", NS(getConfig=lambda: NS(debugging=NS(ThreeSigmaObs=False))))
-    vc.stub(SC + "@EventStack", NS(logAndFlushEvents=lambda: log.append(("flushEvents",))))
-    vc.stub(SC + "@JulianDate", lambda x: x)
+    vc.install(SC + "@getRelevantEvents", get_relevant)
+    vc.install(SC + "@handleRelevantEvents", handle_relevant)
+    vc.install(SC + "@PropagateRegistration", lambda a: ("PropagateRegistration", a))
+    vc.install(SC + "@EstPredictRegistration", lambda a: ("EstPredictRegistration", a))
+    vc.install(SC + "@EstUpdateRegistration", lambda a, h, obs: ("EstUpdateRegistration", a, h, list(obs)))
+    vc.install(SC + "@ray", NS(put=lambda x: ("handle", x)))
+    vc.install(SC + "@BehavioralConfig", NS(getConfig=lambda: NS(debugging=NS(ThreeSigmaObs=False))))
+    vc.install(SC + "@EventStack", NS(logAndFlushEvents=lambda: log.append(("flushEvents",))))
+    vc.install(SC + "@JulianDate", lambda x: x)
     clock = Clock(log, dt)
-    scn = vc.new(SC + "Scenario", current_julian_date=prior_jd, clock=clock, database="DB", logger=None, target_agents=tas, _sensor_agents=sas,
+    scn = vc.new(SC + "Scenario", current_julian_date=prior_jd, clock=clock, database="DB", logger=NullLogger(), target_agents=tas, _sensor_agents=sas,
                  _estimate_agents=eas, _agent_propagator=Executor(log, "propagate"), _estimate_predictor=Executor(log, "predict"),
                  _estimate_updater=Executor(log, "update"), _ephem_importer=Importer(log) if importer else None,
                  scenario_config=NS(propagation=NS(truth_simulation_only=truth_only)), _tasking_engines=engs,
